@@ -151,6 +151,101 @@ CLAIMED = {
         "technique": "explicit TLA+ spec (NumFmt.tla: decimal odometer + digit-sequence rounding) model-checked with TLC + TLC "
                      "trace validation of recorded library calls",
     },
+    "C01": {
+        "domains": ["workbook"],
+        "text": "TLC checks a two-step model of saving (Serialize: t= attribute and payload per value kind, content interning "
+                "into the string table, rows ascending; Deserialize: t/payload/index/formula back to a typed value) "
+                "exhaustively on bounded workbooks: reload = exactly the non-blank cells (RoundTrip, Stable), interning "
+                "injective, indexes in range, other sheets untouched. Every history of two edits + save of the model (both "
+                "writers), TLC-simulated 14-step histories with intermediate saves, boundary workbooks holding every value "
+                "class with/without formula, and seeded random workbooks (arbitrary Unicode of all planes, arbitrary finite f64 "
+                "bit patterns, random formulas, positions up to XFD1048576) are built through the public API, saved in memory "
+                "with write_writer/write_writer_light and reloaded with read_reader(..,true); TLC validates that each reload "
+                "logs exactly NormWb(sheets) (kind, value text, number bits, formula per cell).",
+        "note": TRUST + ". Blank cells are compared on neither side; styles, hyperlinks and the runs/fonts of rich text are "
+                        "outside the projection; number identity is bit identity; NaN, infinities and Lazy values are not generated.",
+        "technique": "explicit TLA+ spec (Workbook.tla) model-checked with TLC; TLC-generated and random behaviours replayed on "
+                     "the library; recorded traces validated by TLC against the same operators",
+    },
+    "C05": {
+        "domains": ["styles"],
+        "text": "TLC checks Styles.tla (font/fill/border/numFmt tables, cellXfs, Intern = whole-style lookup then per-component "
+                "lookup by key then append, Reconstruct honouring apply*, column groups merged on save and expanded on load) for "
+                "Faithful, DimsKept, NoMerge, NoGrowth on every workbook of <= 2 carriers over a palette of one-attribute "
+                "variants, partial styles and key-adjacent fonts through save, reload, save, reload, and refutes the design "
+                "whose font key is written without separators. Behaviours of the bounded model, TLC-simulated histories and "
+                "seeded random workbooks with 1..600 distinct styles are run on the real library; after every assignment, "
+                "save and reload the effective formatting and dimensions of every cell, row and column read through the public "
+                "getters must equal the specification's post-state, and the table sizes of consecutive saves (independent "
+                "decoder) must not grow (TLC trace validation).",
+        "note": TRUST + ", pydec/styles_view.py. One worksheet; absent components read as the workbook default; colours compared "
+                        "as (argb, theme, tint); font family/charset/vertAlign and gradient fills are not varied.",
+        "technique": "explicit TLA+ spec (Styles.tla) model-checked with TLC; TLC-generated behaviours replayed on the library; "
+                     "recorded traces validated by TLC with exact deviation models for open findings",
+    },
+    "C06": {
+        "domains": ["annot"],
+        "text": "TLC checks on Annot.tla that SaveLoad leaves every annotation kind on its sheet and cell, the sheet list "
+                "unchanged and defined names homed by localSheetId or address, for every enumeration order of hyperlinks and "
+                "authors on small pools, and refutes the same property for the design with two independently seeded hyperlink "
+                "enumerations. TLC-generated histories (every 2-operation path then a save, simulated 40-operation histories) "
+                "and generated workbooks (up to 60 items per kind and sheet, XML-special and non-ASCII texts, several sheets) "
+                "run on the real library; Trace_Annot.tla judges the getter view after reload and an independent decoder's "
+                "view of the written hyperlinks, merges, defined names and sheet list. Link-heavy cases are repeated in fresh "
+                "driver processes (hash seeds differ per process).",
+        "note": TRUST + ", pydec/annot_view.py. Collections compared as sets plus a no-duplicate check. Model contract: one "
+                        "comment per cell, distinct names, a sheet is renamed only while it keeps no names. Tooltips are not "
+                        "generated.",
+        "technique": "explicit TLA+ spec (Annot.tla) model-checked with TLC, deviant design refuted; trace validation of real "
+                     "save+reload runs with an independent file decoder",
+    },
+    "C08": {
+        "domains": ["formula"],
+        "text": "TLC checks a three-sheet workbook model (MC_Formula.tla: generated formulas, defined names on sheets and at "
+                "workbook level, chart series) under insert/remove of rows/columns on any sheet: every reference designates "
+                "exactly the moved target cells (stated on sets of grid cells, independently of the index arithmetic), becomes "
+                "#REF! iff all targets were deleted, everything else is unchanged. All depth-1 behaviours of the model "
+                "(thorough: depth 2), fixed exemplars and 1500 (thorough 40000) random workbooks with formulas of depth <= 4 "
+                "(6) and histories of 1-4 edits at references and grid limits are run through Spreadsheet::insert_new_row / "
+                "insert_new_column_by_index / remove_row / remove_column_by_index; after every edit Cell::get_formula, "
+                "DefinedName::get_address and chart series addresses of all sheets are judged by TLC.",
+        "note": TRUST + ". In-range edits only. After a deviation whose result is no longer a token list, or a panic half-way "
+                        "through an edit, the rest of that case is not judged. At most one chart per sheet; a chart may vanish "
+                        "with its anchor rows.",
+        "technique": "explicit TLA+ spec (Formula.tla) model-checked with TLC; TLC-generated behaviours replayed on the library; "
+                     "TLC trace validation with exact deviation models",
+    },
+    "C09": {
+        "domains": ["formula"],
+        "text": "TLC checks the push-down formula generator (FormulaGen.tla): every accepted formula is well-formed by an "
+                "independent characterisation, translation by (0,0) is the identity, only non-$ parts move, #REF! exactly when "
+                "a part leaves the grid. Every formula TLC accepts within the bound (<= 3 tokens over a 34-operand palette, <= 5 "
+                "over a small one; thorough <= 4 and <= 6) plus 4000 (thorough 100000) seeded random formulas of depth <= 6 is "
+                "given to the real Cell::set_formula / set_coordinate / get_formula for 5-7 coordinate changes and to "
+                "Worksheet::insert_new_row far below all references; TLC accepts the text read back only if it is an "
+                "acceptable rendering of the translated token list, or exactly what the model of an open known finding computes.",
+        "note": TRUST + ". At most one of {quoted sheet name, bracketed reference, trailing blank} per formula; hanging bracket "
+                        "formulas are driven as a bounded sample under a watchdog; a qualifier may be re-quoted.",
+        "technique": "explicit TLA+ spec (Formula.tla / FormulaGen.tla) model-checked with TLC; TLC-generated formulas replayed "
+                     "on the library; TLC trace validation with exact deviation models",
+    },
+    "C10": {
+        "domains": ["cellstore"],
+        "text": "TLC checks the cell store in its real representation (hash map with a per-cell copy of the coordinate, two "
+                "ordered indexes, row table, column table; every public operation written as the code's sub-updates) on all "
+                "operation sequences over a 3x3 window (quick: depth 2 full pools, depth 3 lean; thorough: depth 3 full, "
+                "depth 4 lean): Coherent, QueriesAgree, AllEmitted through a model of the writer's row loop, InGrid, refinement "
+                "of the reference grid. Every depth-1 behaviour (initial sheets partly saved and reloaded first), "
+                "TLC-simulated random histories of 1..60 operations and generated histories at the real grid limits are run on "
+                "the library; after every operation every query API the property names and the <c r=..> references of an "
+                "in-memory save are recorded; TLC accepts a step only if each query equals its brute-force definition over the "
+                "specification's own cell set, every cell's row is known, and the saved references contain every cell with "
+                "content exactly once and nothing else (content-free cells may be omitted by the writer).",
+        "note": TRUST + ", pydec/cellrefs.py. Only in-range arguments; set_style_by_range with cell ranges only (the library's "
+                        "own assertion rejects 1:3 / A:B). Cells carry plain text values and one of three styles.",
+        "technique": "explicit TLA+ spec (CellStore.tla) model-checked with TLC; TLC-generated and TLC-simulated behaviours "
+                     "replayed on the library; recorded traces validated by TLC against the same Post operators",
+    },
 }
 
 NOT_CLAIMED = {}
